@@ -779,6 +779,47 @@ func (s *lockSys) runStress(rnd *rand.Rand, rounds int) {
 	}
 }
 
+// runRawStress: every caller spins on TryLock / Unlock of its own locker; only successful acquisitions are logged
+// (call + ret after the call returned, unlock before Unlock is invoked: a logged overlap is a real one).
+func (s *lockSys) runRawStress(rnd *rand.Rand, acqs int) {
+	s.auto = true
+	var wg sync.WaitGroup
+	var total int64
+	for pid := 1; pid < len(s.procs); pid++ {
+		wg.Add(1)
+		seed := rnd.Int63()
+		go func(pid int) {
+			defer wg.Done()
+			r := rand.New(rand.NewSource(seed))
+			l := s.lockers[s.procs[pid].locker-1]
+			deadline := time.Now().Add(20 * time.Second)
+			for atomic.LoadInt64(&total) < int64(acqs) && time.Now().Before(deadline) {
+				ok := false
+				if p, _ := callPanics(func() { ok = l.TryLock(context.Background()) }); p || !ok {
+					continue
+				}
+				atomic.AddInt64(&total, 1)
+				s.mu.Lock()
+				s.ev(map[string]any{"e": "call", "p": pid, "kind": "try", "late": false})
+				s.ev(map[string]any{"e": "ret", "p": pid, "res": "ok"})
+				s.mu.Unlock()
+				for k := r.Intn(3); k > 0; k-- {
+					runtime.Gosched()
+				}
+				s.mu.Lock()
+				s.ev(map[string]any{"e": "unlock", "p": pid})
+				s.mu.Unlock()
+				up, _ := callPanics(func() { l.Unlock() })
+				s.mu.Lock()
+				s.ev(map[string]any{"e": "unlocked", "p": pid, "panic": up})
+				s.mu.Unlock()
+			}
+		}(pid)
+	}
+	wg.Wait()
+	s.quiesce()
+}
+
 // ---- the C01 known finding: a release that reaches the store after the lease ran out --------
 
 // runLateDelete: p1 acquires and unlocks, its Delete is held at the gate while the lease of its
@@ -942,6 +983,30 @@ func driveLock(opt *Options) error {
 			if !giveUp() {
 				s.close()
 			}
+		}
+	case "rawstress":
+		// callers on providers that sit DIRECTLY on the store (no facade, nothing serialises the storage calls): what
+		// mutual exclusion owes to the atomicity of the storage operations themselves is exercised with real parallelism
+		for i := 0; i < opt.N && !giveUp(); i++ {
+			rnd := rand.New(rand.NewSource(opt.Seed*104729 + int64(i)))
+			np := 2 + rnd.Intn(5)
+			var lockerOf, provOf []int
+			for k := 1; k <= np; k++ {
+				lockerOf, provOf = append(lockerOf, k), append(provOf, k)
+			}
+			s, err := newLockSys(lockerOf, provOf, opt.Variant, lease)
+			if err != nil {
+				return err
+			}
+			for k := range s.provs {
+				pr := dist.NewKvsLockProvider(s.backing, "/locks/")
+				dist.VerifSetLeaseTTL(pr, lease)
+				s.provs[k] = pr
+				s.lockers[k] = pr.NewLocker("L")
+			}
+			s.runRawStress(rnd, 2500)
+			flush(s, true)
+			s.close()
 		}
 	case "latedelete":
 		s, err := newLockSys([]int{1, 2, 3}, []int{1, 2, 3}, opt.Variant, lease)
